@@ -663,31 +663,288 @@ def _unroll_in(fnode, stmts, owner):
 
 
 def _unroll(fnode, loop):
-    if loop.orelse or not isinstance(loop.target, ast.Name):
+    if loop.orelse:
+        return None
+    if isinstance(loop.target, ast.Name):
+        tvars = [loop.target.id]
+    elif isinstance(loop.target, ast.Tuple) and all(
+            isinstance(x, ast.Name) for x in loop.target.elts):
+        tvars = [x.id for x in loop.target.elts]
+    else:
         return None
     seq = _literal_seq(fnode, loop.iter)
     if seq is None or not (0 < len(seq.elts) <= 16):
         return None
-    if not all(isinstance(e, (ast.Name, ast.Attribute)) for e in seq.elts):
-        return None
-    var = loop.target.id
-    calls_var = False
+
+    def simple(e):
+        return isinstance(e, (ast.Name, ast.Attribute, ast.Constant))
+    rows = []
+    for e in seq.elts:
+        if isinstance(loop.target, ast.Name):
+            if not (simple(e) or (isinstance(e, ast.Tuple) and
+                                  all(simple(x) for x in e.elts))):
+                return None
+            rows.append([e])
+        else:
+            if not (isinstance(e, ast.Tuple) and
+                    len(e.elts) == len(tvars) and
+                    all(simple(x) for x in e.elts)):
+                return None
+            rows.append(list(e.elts))
     for st in loop.body:
         for n in ast.walk(st):
             if isinstance(n, (ast.Break, ast.Continue, ast.Return,
                               ast.Yield, ast.YieldFrom)):
                 return None
-            if isinstance(n, ast.Name) and n.id == var and \
+            if isinstance(n, ast.Name) and n.id in tvars and \
                     isinstance(n.ctx, (ast.Store, ast.Del)):
                 return None
-            if isinstance(n, ast.Call) and isinstance(n.func, ast.Name) \
-                    and n.func.id == var:
-                calls_var = True
-    if not calls_var:
-        return None
     out = []
-    for e in seq.elts:
-        sub = _Subst({var: e}, {})
+    for row in rows:
+        sub = _Subst(dict(zip(tvars, row)), {})
         for st in loop.body:
             out.append(sub.visit(copy.deepcopy(st)))
     return out
+
+
+# ----------------------------------------------------------------------
+# Renamed or moved functions and renamed attributes are mapped back to the
+# names of the pinned tree (spec/known_fingerprints.json), so that a rule
+# anchored in `connection.H2Connection._terminate_connection` still finds
+# the code after a maintainer has called it something else or moved it to
+# another module.  The mapping is structural (the body is the same modulo
+# the names of locals; or, failing that, the one function of the same scope
+# used from exactly the same functions), unique, and printed with every
+# report.
+
+class _Alpha(ast.NodeTransformer):
+    """Alpha-rename locals/parameters, drop docstrings, forget own name."""
+
+    def __init__(self):
+        self.names = {}
+        self.locals = set()
+
+    def _n(self, x):
+        if x not in self.names:
+            self.names[x] = 'v%d' % len(self.names)
+        return self.names[x]
+
+    def visit_arg(self, n):
+        return ast.arg(arg=self._n(n.arg), annotation=None)
+
+    def visit_Name(self, n):
+        if n.id in self.locals:
+            return ast.Name(id=self._n(n.id), ctx=n.ctx)
+        return ast.Name(id=n.id, ctx=n.ctx)
+
+    def visit_ExceptHandler(self, n):
+        self.generic_visit(n)
+        if n.name:
+            n.name = self._n(n.name)
+        return n
+
+
+def fingerprint(fnode, loose=False):
+    """Hash of the function body, independent of the function's own name,
+    of the names of its locals and parameters, of docstrings, annotations
+    and positions.  loose=True also forgets attribute and global names (used
+    only to pick the unique most similar candidate)."""
+    import hashlib
+    node = copy.deepcopy(fnode)
+    a = _Alpha()
+    loc = {x.arg for x in node.args.args + node.args.kwonlyargs +
+           node.args.posonlyargs}
+    if node.args.vararg:
+        loc.add(node.args.vararg.arg)
+    if node.args.kwarg:
+        loc.add(node.args.kwarg.arg)
+    for n in _own_walk(node):
+        if isinstance(n, ast.Name) and isinstance(n.ctx, (ast.Store,
+                                                           ast.Del)):
+            loc.add(n.id)
+        elif isinstance(n, ast.ExceptHandler) and n.name:
+            loc.add(n.name)
+    a.locals = loc
+    body = [s for i, s in enumerate(node.body)
+            if not (i == 0 and isinstance(s, ast.Expr) and
+                    isinstance(s.value, ast.Constant) and
+                    isinstance(s.value.value, str))]
+    node.body = body or [ast.Pass()]
+    node.returns = None
+    for x in node.args.args + node.args.kwonlyargs + node.args.posonlyargs:
+        x.annotation = None
+    node.name = '_'
+    node = a.visit(node)
+    if loose:
+        for n in ast.walk(node):
+            if isinstance(n, ast.Attribute):
+                n.attr = '_'
+            elif isinstance(n, ast.Name) and not n.id.startswith('v'):
+                n.id = '_'
+            elif isinstance(n, ast.Constant) and isinstance(n.value, str):
+                n.value = ''
+    txt = ast.dump(node, annotate_fields=False, include_attributes=False)
+    return hashlib.sha1(txt.encode()).hexdigest()[:16]
+
+
+def function_table(trees):
+    """qual -> (FunctionDef, module, class or None)"""
+    out = {}
+    for mname, tree in trees.items():
+        for st in tree.body:
+            if isinstance(st, (ast.FunctionDef, ast.AsyncFunctionDef)):
+                out['%s.%s' % (mname, st.name)] = (st, mname, None)
+            elif isinstance(st, ast.ClassDef):
+                for s2 in st.body:
+                    if isinstance(s2, (ast.FunctionDef,
+                                       ast.AsyncFunctionDef)):
+                        q = '%s.%s.%s' % (mname, st.name, s2.name)
+                        if any(_dec(d) == 'setter'
+                               for d in s2.decorator_list):
+                            q += '.setter'
+                        out[q] = (s2, mname, st.name)
+    return out
+
+
+def class_attrs(trees):
+    """'module.Class' -> set of attributes assigned through self.X = ..."""
+    out = {}
+    for mname, tree in trees.items():
+        for st in tree.body:
+            if not isinstance(st, ast.ClassDef):
+                continue
+            s = out.setdefault('%s.%s' % (mname, st.name), set())
+            for n in ast.walk(st):
+                if isinstance(n, ast.Attribute) and isinstance(
+                        n.ctx, ast.Store) and isinstance(
+                        n.value, ast.Name) and n.value.id == 'self':
+                    s.add(n.attr)
+    return out
+
+
+def callers_of(trees, table):
+    """qual -> sorted list of functions (quals) that mention its name."""
+    by_name = {}
+    for q, (node, mname, cls) in table.items():
+        by_name.setdefault(node.name, []).append(q)
+    out = {q: set() for q in table}
+    for q, (node, mname, cls) in table.items():
+        for n in _own_walk(node):
+            nm = None
+            if isinstance(n, ast.Attribute):
+                nm = n.attr
+            elif isinstance(n, ast.Name):
+                nm = n.id
+            if nm in by_name and nm != node.name:
+                for tq in by_name[nm]:
+                    out[tq].add(q)
+    return {q: sorted(v) for q, v in out.items()}
+
+
+def load_pinned():
+    import json
+    p = os.path.join(VERIF_DIR, 'h2verif', 'spec', 'known_fingerprints.json')
+    with open(p) as fh:
+        return json.load(fh)
+
+
+class Aliases:
+    def __init__(self):
+        self.renamed = []       # (pinned qual, current name)
+        self.moved = {}         # current qual -> pinned qual
+        self.attrs = []         # (class, pinned attr, current attr)
+
+
+def _rename_everywhere(trees, old, new):
+    for tree in trees.values():
+        for n in ast.walk(tree):
+            if isinstance(n, (ast.FunctionDef, ast.AsyncFunctionDef)) and \
+                    n.name == old:
+                n.name = new
+            elif isinstance(n, ast.Attribute) and n.attr == old:
+                n.attr = new
+            elif isinstance(n, ast.Name) and n.id == old:
+                n.id = new
+            elif isinstance(n, ast.alias):
+                if n.name == old:
+                    n.name = new
+                if n.asname == old:
+                    n.asname = new
+
+
+def map_back(trees):
+    """Detect renamed / moved functions and renamed attributes against the
+    pinned tree and undo the renames in the syntax trees."""
+    pinned = load_pinned()
+    al = Aliases()
+    for _ in range(24):
+        cur = function_table(trees)
+        known = set(pinned['functions'])
+        missing = sorted(q for q in known if q not in cur and
+                         al.moved.get(q) is None and
+                         q not in al.moved.values())
+        introduced = sorted(q for q in cur if q not in known and
+                            q not in al.moved)
+        if not missing or not introduced:
+            break
+        fp = {q: fingerprint(cur[q][0]) for q in introduced}
+        fpl = {q: fingerprint(cur[q][0], loose=True) for q in introduced}
+        done = False
+        for k in missing:
+            pk = pinned['functions'][k]
+            kname = k.split('.')[-1] if not k.endswith('.setter') \
+                else k.split('.')[-2]
+            kcls = pk.get('cls')
+            cands = [q for q in introduced if fp[q] == pk['fp']]
+            if len(cands) != 1:
+                # the body may mention other renamed names: the loose form,
+                # within the same class (or among module-level functions)
+                cands = [q for q in introduced if fpl[q] == pk['fpl'] and
+                         cur[q][2] == kcls]
+            if len(cands) != 1 and pk.get('callers'):
+                # renamed and reshaped at once: the one introduced function
+                # of the same scope that is used from exactly the functions
+                # that used the pinned one
+                cc = callers_of(trees, cur)
+                cands = [q for q in introduced if cur[q][2] == kcls and
+                         cur[q][1] == k.split('.')[0] and
+                         cc.get(q) == pk['callers']]
+            if len(cands) != 1:
+                continue
+            q = cands[0]
+            node, mname, cls = cur[q]
+            if node.name != kname:
+                if any(isinstance(n, (ast.Name, ast.Attribute)) and
+                       (getattr(n, 'id', None) == kname or
+                        getattr(n, 'attr', None) == kname)
+                       for t in trees.values() for n in ast.walk(t)):
+                    continue        # the old name is used for something
+                al.renamed.append((k, node.name))
+                _rename_everywhere(trees, node.name, kname)
+            newq = '%s.%s.%s' % (mname, cls, kname) if cls else \
+                '%s.%s' % (mname, kname)
+            if newq != k.replace('.setter', ''):
+                al.moved[newq] = k
+            done = True
+            break           # recompute the tables after each mapping
+        if not done:
+            break
+    # attributes
+    cur_attrs = class_attrs(trees)
+    for cq, attrs in sorted(pinned['attrs'].items()):
+        now = cur_attrs.get(cq)
+        if now is None:
+            continue
+        gone = sorted(set(attrs) - now)
+        new = sorted(now - set(attrs))
+        if len(gone) == 1 and len(new) == 1:
+            used = any(isinstance(n, ast.Attribute) and n.attr == gone[0]
+                       for t in trees.values() for n in ast.walk(t))
+            if not used:
+                al.attrs.append((cq, gone[0], new[0]))
+                for t in trees.values():
+                    for n in ast.walk(t):
+                        if isinstance(n, ast.Attribute) and \
+                                n.attr == new[0]:
+                            n.attr = gone[0]
+    return al
